@@ -325,6 +325,7 @@ class GroupCoordinator(object):
         if g.history:
             g.history[-1]["assignments"] = dict(assignments)
             g.history[-1]["real_leader"] = real_leader
+            g.history[-1]["partitions_at_sync"] = {t: sorted(self.cl.topics[t].partitions) for t in self.cl.topics}
         self.note(g, "stable", g.generation)
         gen = g.generation
         for m in list(g.members.values()):
